@@ -38,8 +38,14 @@ pub fn valid(x: f64) -> bool {
     0.0 <= x && x <= 1.0
 }
 
+/// the supplied / stored / returned numbers as *numbers*: +0 and -0 are the same number of [0,1]
+/// (a constructor may store +0 for a supplied -0 without changing any number); every other valid
+/// value has one bit pattern
 fn bits(v: &[f64]) -> Vec<u64> {
-    v.iter().map(|x| x.to_bits()).collect()
+    v.iter().map(|x| num(*x)).collect()
+}
+fn num(x: f64) -> u64 {
+    if x == 0.0 { 0 } else { x.to_bits() }
 }
 
 pub fn check_truth(xs: &[f64]) -> Result<(), String> {
@@ -63,15 +69,15 @@ pub fn check_truth(xs: &[f64]) -> Result<(), String> {
             let c = quiet_catch(AssertUnwindSafe(|| t.c()));
             match (used.len(), &f, &c) {
                 (0, Err(_), Err(_)) => {}
-                (1, Ok(a), Err(_)) if a.to_bits() == used[0].to_bits() => {}
-                (2, Ok(a), Ok(b)) if a.to_bits() == used[0].to_bits() && b.to_bits() == used[1].to_bits() => {}
+                (1, Ok(a), Err(_)) if num(*a) == num(used[0]) => {}
+                (2, Ok(a), Ok(b)) if num(*a) == num(used[0]) && num(*b) == num(used[1]) => {}
                 _ => return Err(format!("accessors of Truth built from {used:?}: f() = {f:?}, c() = {c:?}")),
             }
             // every other public getter (the EvidentValue trait: get_frequency, get_confidence,
             // frequency, confidence, get_frequency_confidence) agrees with f() / c(), value and panic
             {
                 use narsese::api::EvidentValue;
-                let b = |r: &Result<f64, String>| r.as_ref().ok().map(|x| x.to_bits());
+                let b = |r: &Result<f64, String>| r.as_ref().ok().map(|x| num(*x));
                 let gf = quiet_catch(AssertUnwindSafe(|| EvidentValue::get_frequency(t)));
                 let gc = quiet_catch(AssertUnwindSafe(|| EvidentValue::get_confidence(t)));
                 let ff = quiet_catch(AssertUnwindSafe(|| EvidentValue::frequency(t)));
@@ -81,7 +87,7 @@ pub fn check_truth(xs: &[f64]) -> Result<(), String> {
                     return Err(format!("trait getters of Truth built from {used:?} disagree with f()/c(): get_frequency = {gf:?}, frequency = {ff:?}, get_confidence = {gc:?}, confidence = {cc:?}"));
                 }
                 match (&fc, &f, &c) {
-                    (Ok((x, y)), Ok(a), Ok(bb)) if x.to_bits() == a.to_bits() && y.to_bits() == bb.to_bits() => {}
+                    (Ok((x, y)), Ok(a), Ok(bb)) if num(*x) == num(*a) && num(*y) == num(*bb) => {}
                     (Err(_), _, _) if f.is_err() || c.is_err() => {}
                     _ => return Err(format!("get_frequency_confidence() of Truth built from {used:?} = {fc:?}, but f() = {f:?} and c() = {c:?}")),
                 }
@@ -191,7 +197,7 @@ pub fn check_budget(xs: &[f64]) -> Result<(), String> {
             for i in 0..3 {
                 for a in [&acc[i], &acc2[i]] {
                     match (i < used.len(), a) {
-                        (true, Ok(x)) if x.to_bits() == used[i].to_bits() => {}
+                        (true, Ok(x)) if num(*x) == num(used[i]) => {}
                         (false, Err(_)) => {}
                         _ => return Err(format!("accessor #{i} of Budget built from {used:?} gives {a:?}")),
                     }
